@@ -520,7 +520,9 @@ func pgOps() []pgOp {
 		{"FileLinkAttachments/message", aff(1), func(a *adapter) error {
 			return a.FileLinkAttachments("", t.ZeroUid, uid2, []string{fid.String(), uid.String()})
 		}},
-		{"FileLinkAttachments/topic", aff(1), func(a *adapter) error { return a.FileLinkAttachments(topic, t.ZeroUid, t.ZeroUid, []string{fid.String()}) }},
+		{"FileLinkAttachments/topic", aff(1), func(a *adapter) error {
+			return a.FileLinkAttachments(topic, t.ZeroUid, t.ZeroUid, []string{fid.String()})
+		}},
 		{"FileLinkAttachments/user", aff(1), func(a *adapter) error { return a.FileLinkAttachments("", uid, t.ZeroUid, []string{fid.String()}) }},
 	}
 }
